@@ -90,7 +90,17 @@ def _run_block(args):
             signal.setitimer(signal.ITIMER_REAL, 0)
         merge_result(agg, res, sc, i)
     faulthandler.cancel_dump_traceback_later()
+    _cleanup_peers()
     return agg
+
+
+def _cleanup_peers():
+    g = sys.modules.get('sim.gpgsim')
+    if g is not None:
+        try:
+            g.cleanup_all()
+        except Exception:
+            pass
 
 
 def new_agg():
@@ -324,6 +334,21 @@ def run_check(prop, tier, seed, n=None, jobs=None, budget_s=None, verbose=False)
     known = load_known()
     agg = new_agg()
     kf_hit = {}
+    shared_home = None
+    if getattr(mod, 'NEEDS_GPG', False) and not os.environ.get('VERIF_SIGNER_HOME'):
+        # one signer keyring (and one gpg-agent) for the whole batch, removed at the end
+        from sim import gpgsim
+        shared_home = gpgsim.signer_home()
+        os.environ['VERIF_SIGNER_HOME'] = shared_home
+    try:
+        return _run_check_inner(prop, tier, seed, mod, plan, n, jobs, budget_s, known, agg, kf_hit, t0)
+    finally:
+        if shared_home is not None:
+            os.environ.pop('VERIF_SIGNER_HOME', None)
+        _cleanup_peers()
+
+
+def _run_check_inner(prop, tier, seed, mod, plan, n, jobs, budget_s, known, agg, kf_hit, t0):
 
     # 1. replays of open known findings of this property (always executed)
     for kf in known:
